@@ -152,6 +152,17 @@ def run_tlc_trace(trace, meta, module="MCTrace"):
     return res
 
 
+def run_equiv(module):
+    """TLC on an ASSUME-only module of spec/ind that compares the integer copies used by the lemmas with the operators of the main specification."""
+    ind = os.path.join(SPEC, "ind")
+    meta = os.path.join(WORK, "equiv-%d" % os.getpid())
+    cp = "/opt/veriftools/tla/tla2tools.jar:/opt/veriftools/tla/CommunityModules-deps.jar"
+    rc, out = sh(["java", "-XX:+UseParallelGC", "-DTLA-Library=%s:%s:%s" % (os.path.join(SPEC, "lib/nat"), SPEC, ind), "-cp", cp, "tlc2.TLC", "-nowarning",
+                  "-metadir", meta, "-config", module + ".cfg", module + ".tla"], timeout=300, cwd=ind)
+    shutil.rmtree(meta, ignore_errors=True)
+    return "EQ-OK" in out and "No error has been found" in out
+
+
 def run_apalache(path, lemmas, init="IndInit", timeout=300):
     """Unbounded lemmas (spec/ind/*.tla): for each (next, action invariant) Apalache checks one step from ANY state satisfying `init`.
     Returns the record format of run_mc; a timeout or a missing tool is recorded (not proved), a counterexample is a model error."""
